@@ -208,8 +208,9 @@ class Net(object):
 class RawScript(object):
     """events: list of [datagram specs, clock after]; a datagram spec is
          {"rc": rc, "seq": s, "src": t}          literal sequence number, or
-         {"rc": rc, "tx": k, "src": t}           the sequence number transmission k carried (a literal
-                                                 fallback "seq" is used while k has not been sent yet)
+         {"rc": rc, "tx": k, "src": t}           the sequence number transmission k carried (while k has not
+                                                 been sent the datagram is dropped, unless a literal
+                                                 fallback "seq" is given)
        pad: number of quiet events appended when the script runs out (clock jumps `pad_step` beyond the
        requested timeout each time), after which ScriptExhausted is raised."""
 
@@ -226,9 +227,11 @@ class RawScript(object):
             specs, after = self.events[k]
             out = []
             for s in specs:
-                seq = s.get("seq", 0)
+                seq = s.get("seq")
                 if "tx" in s and net.tx_seq.get(s["tx"]) is not None:
                     seq = net.tx_seq[s["tx"]]
+                if seq is None:
+                    continue          # reply to a transmission that has not happened: cannot exist
                 out.append(make_reply(s["rc"], seq, arg1=s["src"], data=struct.pack("<I", s["src"] & 0xffffffff)))
             return out, after
         if k < len(self.events) + self.pad:
